@@ -22,9 +22,36 @@ import (
 
 type Call struct {
 	Target string `json:"target"`
-	Wrap   string `json:"wrap,omitempty"` // "", "if", "for"
+	Wrap   string `json:"wrap,omitempty"` // "" or a key of wraps
 	Lay    int    `json:"lay,omitempty"`  // layout variant of the call text (same tokens, same position of the name)
 }
+
+// wraps are the syntactic contexts a use() call can sit in: every one is reachable at run time, so
+// the call must be linked (resolved, cycle-checked, bound) exactly like a top-level call.
+type wrap struct {
+	pre    []string
+	indent int
+	post   []string
+}
+
+var wraps = map[string]wrap{
+	"":     {},
+	"if":   {pre: []string{"if true {"}, indent: 2, post: []string{"}"}},
+	"for":  {pre: []string{"for i = 0; i < 1; i = i + 1 {"}, indent: 2, post: []string{"}"}},
+	"else": {pre: []string{"if false {", "  add_key(zz_never, 1)", "} else {"}, indent: 2, post: []string{"}"}},
+	"elif": {pre: []string{"if false {", "  add_key(zz_never, 1)", "} elif true {"}, indent: 2, post: []string{"}"}},
+	// the loop forms, with the call after a conditional jump of the same body
+	"forin":      {pre: []string{"for x in [1] {"}, indent: 2, post: []string{"}"}},
+	"forin_map":  {pre: []string{"for k in {\"a\": 1} {"}, indent: 2, post: []string{"}"}},
+	"forin_str":  {pre: []string{"for ch in \"a\" {"}, indent: 2, post: []string{"}"}},
+	"after_cont": {pre: []string{"for i = 0; i < 1; i = i + 1 {", "  if i == 5 {", "    continue", "  }"}, indent: 2, post: []string{"}"}},
+	"after_brk":  {pre: []string{"for x in [1, 2] {", "  if x == 7 {", "    break", "  }"}, indent: 2, post: []string{"}"}},
+	"before_brk": {pre: []string{"for ;; {"}, indent: 2, post: []string{"  break", "}"}},
+	"nested":     {pre: []string{"for i = 0; i < 1; i = i + 1 {", "  if true {", "    for y in \"a\" {"}, indent: 6, post: []string{"    }", "  }", "}"}},
+	"if_in_if":   {pre: []string{"if true {", "  if 1 < 2 {"}, indent: 4, post: []string{"  } else {", "    add_key(zz_never, 1)", "  }", "}"}},
+}
+
+var wrapNames = []string{"if", "for", "else", "elif", "forin", "forin_map", "forin_str", "after_cont", "after_brk", "before_brk", "nested", "if_in_if"}
 
 func useText(c Call) string {
 	switch c.Lay % 3 {
@@ -118,20 +145,14 @@ func render(w *Workload) rendered {
 			if i == s.BadAt {
 				bad()
 			}
-			switch c.Wrap {
-			case "if":
-				line("if true {")
-				r.sites[s.Name] = append(r.sites[s.Name], site{Ln: ln, Col: 3, Target: c.Target})
-				line("  " + useText(c))
-				line("}")
-			case "for":
-				line("for i = 0; i < 1; i = i + 1 {")
-				r.sites[s.Name] = append(r.sites[s.Name], site{Ln: ln, Col: 3, Target: c.Target})
-				line("  " + useText(c))
-				line("}")
-			default:
-				r.sites[s.Name] = append(r.sites[s.Name], site{Ln: ln, Col: 1, Target: c.Target})
-				line(useText(c))
+			wr := wraps[c.Wrap]
+			for _, l := range wr.pre {
+				line(l)
+			}
+			r.sites[s.Name] = append(r.sites[s.Name], site{Ln: ln, Col: 1 + wr.indent, Target: c.Target})
+			line(strings.Repeat(" ", wr.indent) + useText(c))
+			for _, l := range wr.post {
+				line(l)
 			}
 		}
 		if s.BadAt >= len(s.Calls) {
@@ -266,11 +287,13 @@ func gen(r *simrt.RNG) Workload {
 				}
 			}
 			c := Call{Target: t, Lay: r.Intn(3)}
-			switch r.Intn(5) {
+			switch r.Intn(6) {
 			case 0:
 				c.Wrap = "if"
 			case 1:
 				c.Wrap = "for"
+			case 2:
+				c.Wrap = wrapNames[r.Intn(len(wrapNames))]
 			}
 			s.Calls = append(s.Calls, c)
 		}
